@@ -125,13 +125,22 @@ impl Val for bool {
     fn vparse(t: &str) -> Option<Self> { match t { "true" => Some(true), "false" => Some(false), _ => None } }
     fn vtok(&self) -> String { self.to_string() }
 }
+/// string tokens carry white space escaped (`%s` space, `%t` tab, `%n` newline): the line
+/// protocol splits on blanks; the model sees the escaped spelling (an opaque, non-null string
+/// that parses as nothing — exactly what `" None"` / `" 1"` are to Rust's `parse`)
+pub fn str_unescape(t: &str) -> String {
+    t.replace("%s", " ").replace("%t", "\t").replace("%n", "\n")
+}
+pub fn str_escape(t: &str) -> String {
+    t.replace(' ', "%s").replace('\t', "%t").replace('\n', "%n")
+}
 impl Val for String {
-    fn vparse(t: &str) -> Option<Self> { if t == "_" || t.is_empty() { None } else { Some(t.to_string()) } }
-    fn vtok(&self) -> String { self.clone() }
+    fn vparse(t: &str) -> Option<Self> { if t == "_" || t.is_empty() { None } else { Some(str_unescape(t)) } }
+    fn vtok(&self) -> String { str_escape(self) }
 }
 impl Val for &'static str {
-    fn vparse(t: &str) -> Option<Self> { if t == "_" || t.is_empty() { None } else { Some(Box::leak(t.to_string().into_boxed_str())) } }
-    fn vtok(&self) -> String { self.to_string() }
+    fn vparse(t: &str) -> Option<Self> { if t == "_" || t.is_empty() { None } else { Some(Box::leak(str_unescape(t).into_boxed_str())) } }
+    fn vtok(&self) -> String { str_escape(self) }
 }
 impl<T: Val> Val for Option<T> {
     fn vparse(t: &str) -> Option<Self> { if t == "_" { Some(None) } else { T::vparse(t).map(Some) } }
@@ -333,12 +342,12 @@ where
     Some(if so {
         let x = <Option<T>>::vparse(v)?;
         let c = catch(|| Cast::<String>::cast(x.clone()));
-        let l = match x { None => "None".to_string(), Some(y) => y.to_string() };
+        let l = match x { None => "None".to_string(), Some(y) => str_escape(&y.to_string()) };
         format!("{};{}", t(c), l)
     } else {
         let x = T::vparse(v)?;
         let c = catch(|| Cast::<String>::cast(x.clone()));
-        let l = if x.lang_is_null() { "None".to_string() } else { x.to_string() };
+        let l = if x.lang_is_null() { "None".to_string() } else { str_escape(&x.to_string()) };
         format!("{};{}", t(c), l)
     })
 }
@@ -517,7 +526,7 @@ fn run_cast(s: &str, d: &str, v: &str) -> Option<String> {
             }
             if db == "str" {
                 let x = String::vparse(v)?;
-                let l = if d_o { if x == "None" { "_".to_string() } else { x.clone() } } else { x.clone() };
+                let l = if d_o { if x == "None" { "_".to_string() } else { x.vtok() } } else { x.vtok() };
                 let c = match (sb, d_o) {
                     ("str", false) => t(catch(|| Cast::<String>::cast(x.clone()))),
                     ("str", true) => t(catch(|| Cast::<Option<String>>::cast(x.clone()))),
@@ -620,7 +629,9 @@ fn float_grid(b: &str, big: bool) -> Vec<String> {
 
 const STR_GRID: &[&str] = &["None", "abc", "0", "1", "-1", "+5", "-0", "255", "256", "-129", "2147483648", "-2147483649", "9223372036854775808",
     "18446744073709551615", "18446744073709551616", "1.5", "-1.5", "0.1", "1.", ".5", "1e3", "1e-2", "2.5E1", "16777217", "9007199254740993", "1e400", "1e-400",
-    "NaN", "nan", "inf", "-inf", "Infinity", "infinity", "true", "false", "True", "none", "1_0", "0x10", "-", "+", "1e", "e5"];
+    "NaN", "nan", "inf", "-inf", "Infinity", "infinity", "true", "false", "True", "none", "1_0", "0x10", "-", "+", "1e", "e5",
+    // the null marker and a number with white space around them: neither is null, neither parses
+    "%sNone", "None%s", "None%n", "%tNone", "%s1", "1%s", "%s"];
 const DT_GRID: &[&str] = &["nat", "0", "1", "-1", "2", "1000", "1500", "86400000000000", "9223372036854775807", "-9223372036854775807", "9007199254740993", "4294967296", "4294967297", "255", "256"];
 const TD_GRID: &[&str] = &["nat", "0m0", "0m1000", "0m-1000", "0m1500", "0m-1500", "0m999", "0m1", "1m0", "-1m5000", "12m0", "0m9223372036854775807", "0m-9223372036854775808", "0m4294967296000", "0m4294967297000", "0m255000", "0m256000"];
 
